@@ -423,6 +423,25 @@ func c19CombosOf(n int, big bool) [][]int {
 	return out
 }
 
+func init() {
+	// A walk that is aborted half-way (Post returns false) followed by a complete
+	// one in the same thread: whatever the aborted walk left behind (a recycled
+	// stack, a cursor) is in use while the other thread runs.
+	c19Ops = append(c19Ops, c19Op{name: "WalkAbortedThenWalk", mk: func(sh *c19Shared) (func(), func() string) {
+		var sb strings.Builder
+		return func() {
+			for _, b := range sh.blocks {
+				n := 0
+				cm.Walk(b.AsNode(), &cm.WalkOptions{Post: func(c *cm.Cursor) bool { n++; return n < 3 }})
+				cm.Walk(b.AsNode(), &cm.WalkOptions{
+					Pre:  func(c *cm.Cursor) bool { fmt.Fprintf(&sb, "pre %s %d;", tree.KindName(c.Node()), c.Index()); return true },
+					Post: func(c *cm.Cursor) bool { fmt.Fprintf(&sb, "post %s;", tree.KindName(c.Node())); return true },
+				})
+			}
+		}, func() string { return sb.String() }
+	}})
+}
+
 // c19Combos lists every multiset of n operations.
 func c19Combos(n int) [][]int {
 	var out [][]int
@@ -456,7 +475,7 @@ func c19SeqResult(op int) string {
 func init() {
 	register(&Check{
 		ID:   "C19",
-		Rule: "part 1: for every multiset of 2 (thorough: also 3) operations from {Parse(A), Parse(B), Parse(C), Parse(D), Render through one shared HTMLRenderer, Render through two own renderers, Format into a writer with and into one without WriteString, Walk} on one shared pre-parsed tree (and, at the cheaper granularities, from {Parse of two larger documents that reach every construct, Render/Format/Walk of a larger shared tree}), every schedule with at most p preemptions, where a scheduling point is every instrumented statement (fine) or the first entry of each thread into each function (coarse): bound 1 fine and bound 2 coarse (quick), bound 2 fine for pairs, bound 3 coarse, and triples at bound 1 fine / 2 coarse (thorough); non-trivial = the schedule contains at least one preemption; part 2: in a -race build, every operation pair as free-running goroutines released by a barrier, one fresh process per pair (so the first run meets every lazily built table or cache cold), repeated; and the 652 spec examples parsed/rendered/formatted/walked by 2 and by 8 goroutines at once and then each tree rendered (one shared renderer, twice), formatted and walked concurrently; any race report or result differing from the sequential one is a violation",
+		Rule: "part 1: for every multiset of 2 (thorough: also 3) operations from {Parse(A), Parse(B), Parse(C), Parse(D), Render through one shared HTMLRenderer, Render through two own renderers, Format into a writer with and into one without WriteString, Walk, an aborted Walk followed by a complete one} on one shared pre-parsed tree (and, at the cheaper granularities, from {Parse of two larger documents that reach every construct, Render/Format/Walk of a larger shared tree}), every schedule with at most p preemptions, where a scheduling point is every instrumented statement (fine) or the first entry of each thread into each function (coarse): bound 1 fine and bound 2 coarse (quick), bound 2 fine for pairs, bound 3 coarse, and triples at bound 1 fine / 2 coarse (thorough); non-trivial = the schedule contains at least one preemption; part 2: in a -race build, every operation pair as free-running goroutines released by a barrier, one fresh process per pair (so the first run meets every lazily built table or cache cold), repeated; and the 652 spec examples parsed/rendered/formatted/walked by 2 and by 8 goroutines at once and then each tree rendered (one shared renderer, twice), formatted and walked concurrently; any race report or result differing from the sequential one is a violation",
 		Assumptions: []string{
 			"interleavings are decided at statement granularity; Go's memory model below that and paths the harness bodies do not execute are outside part 1",
 			"the data-race clause is decided by the race detector in a separate free-running pass (cooperative hand-offs are happens-before edges that would blind it); it is not an enumeration of schedules",
